@@ -15,13 +15,16 @@
 (*   ghost      it arrived although the hand-off was reported undelivered   *)
 (*   wrongpair  it arrived elsewhere than at the known owner's channel of   *)
 (*              its (target, source) pair                                   *)
+(*   order      entries of one pair come out of a local channel in another  *)
+(*              order than they were handed over                            *)
 (*   wm         a pending watermark that was never handed to a stream from   *)
 (*              that source to this instance                                *)
 (* Route events (DeliverMessagesToShardOwner / DeliverAckToShardOwner)      *)
 (*   unrouted   reported undelivered although a stream of the pair between  *)
 (*              the router and the known owner is open at both ends         *)
 (*   lost       reported delivered, the owner has the local channel, nothing*)
-(*              arrived                                                     *)
+(*              arrived (if the owner's consumer is stalled - back-pressure *)
+(*              - judged when it is released: Unstall / Freeze "missing")   *)
 (* after Reconcile(i)                                                       *)
 (*   extra      i's tables hold a receiver / sender that is not desired for *)
 (*              that peer by i's own local shards x remote view             *)
@@ -36,13 +39,13 @@
 EXTENDS Integers, Sequences, FiniteSets, TLC, Json
 Trace == ndJsonDeserialize("trace.ndjson")
 ASSUME TLCSet(1, {})
-VARIABLES l, routed, count
-vars == <<l, routed, count>>
+VARIABLES l, routed, count, last
+vars == <<l, routed, count, last>>
 FlagAll(S) == IF S = {} THEN TRUE ELSE TLCSet(1, TLCGet(1) \cup S)
 Put(f, k, v) == [x \in DOMAIN f \cup {k} |-> IF x = k THEN v ELSE f[x]]
 Range(q) == {q[x] : x \in 1..Len(q)}
 Cluster(sh) == sh \div 10
-Init == l = 1 /\ routed = <<>> /\ count = <<>>
+Init == l = 1 /\ routed = <<>> /\ count = <<>> /\ last = <<>>
 
 Local(e) == {<<x[1], x[2]>> : x \in Range(e.local)}                       \* <<i, shard>>
 View(e) == {<<x[1], x[2], x[3]>> : x \in Range(e.view)}                   \* <<i, peer, shard>>
@@ -71,6 +74,16 @@ ArrBad(e, rt, cn) ==
               \cup (IF id \in DOMAIN cn \/ Cardinality({x \in 1..Len(e.arr) : e.arr[x][6] = id /\ e.arr[x][2] # "wm"}) > 1
                     THEN {<<l, "twice", a[4], a[5]>>} ELSE {})
          : a \in Range(e.arr)}
+\* order: what comes out of one local channel for one pair comes out in the order it was handed over (ids grow with the hand-offs)
+RECURSIVE Walk(_, _, _)
+Walk(arr, k, la) ==
+  IF k > Len(arr) THEN [bad |-> {}, la |-> la]
+  ELSE LET a == arr[k]
+           key == <<a[1], a[2], a[3], a[4], a[5]>>
+       IN IF a[2] = "wm" THEN Walk(arr, k + 1, la)
+          ELSE LET r == Walk(arr, k + 1, Put(la, key, a[6])) IN
+               [bad |-> r.bad \cup (IF key \in DOMAIN la /\ la[key] > a[6] THEN {<<l, "order", a[4], a[5]>>} ELSE {}), la |-> r.la]
+Missing(e) == IF "missing" \in DOMAIN e /\ Len(e.missing) > 0 THEN {<<l, "lost", 0, 0>>} ELSE {}
 CountAfter(e, cn) == [id \in DOMAIN cn \cup {a[6] : a \in {x \in Range(e.arr) : x[2] # "wm"}} |-> 1]
 IsRoute(e) == e.a \in {"RouteMsg", "RouteAck"}
 RouteRec(e) == [kind |-> IF e.a = "RouteMsg" THEN "msg" ELSE "ack", from |-> e.i, t |-> e.t, s |-> e.s,
@@ -79,15 +92,15 @@ RouteBad(e) ==
   LET open == IF e.a = "RouteMsg" THEN Running(e, e.owner, e.i, e.t, e.s) ELSE Running(e, e.i, e.owner, e.t, e.s)
       arrived == \E a \in Range(e.arr) : a[6] = e.id /\ a[2] # "wm"
   IN (IF e.owner # "" /\ open /\ ~e.result THEN {<<l, "unrouted", e.t, e.s>>} ELSE {})
-     \cup (IF e.result /\ e.ownerHas /\ ~arrived THEN {<<l, "lost", e.t, e.s>>} ELSE {})
+     \cup (IF e.result /\ e.ownerHas /\ ~e.stalled /\ ~arrived THEN {<<l, "lost", e.t, e.s>>} ELSE {})
 ExtraAt(e, i) == {<<l, "extra", x[3], x[4]>> : x \in {y \in (RecvTab(e) \ DesR(e)) \cup (SendTab(e) \ DesS(e)) : y[1] = i}}
 
 OnStep(e) ==
   LET rt == IF IsRoute(e) /\ e.ok THEN Put(routed, e.id, RouteRec(e)) ELSE routed IN
-  /\ FlagAll(Stuck(e) \cup ArrBad(e, rt, count)
+  /\ FlagAll(Stuck(e) \cup ArrBad(e, rt, count) \cup Walk(e.arr, 1, last).bad \cup Missing(e)
              \cup (IF IsRoute(e) /\ e.ok THEN RouteBad(e) ELSE {})
              \cup (IF e.a = "Reconcile" THEN ExtraAt(e, e.i) ELSE {}))
-  /\ routed' = rt /\ count' = CountAfter(e, count)
+  /\ routed' = rt /\ count' = CountAfter(e, count) /\ last' = Walk(e.arr, 1, last).la
 
 OnQuiet(e) ==
   LET insts == {x : x \in Range(e.inst)}
@@ -96,7 +109,7 @@ OnQuiet(e) ==
                                        /\ <<e.cli[x][1], e.cli[x][2], e.cli[x][3], e.cli[x][4]>> = <<c[1], c[2], c[3], c[4]>>
                                        /\ <<e.cli[y][1], e.cli[y][2], e.cli[y][3], e.cli[y][4]>> = <<c[1], c[2], c[3], c[4]>>}
   IN
-  /\ FlagAll(Stuck(e) \cup ArrBad(e, routed, count)
+  /\ FlagAll(Stuck(e) \cup ArrBad(e, routed, count) \cup Walk(e.arr, 1, last).bad
        \cup (IF ~acc THEN {<<l, "view", 0, 0>>} ELSE {})
        \cup (IF ~e.stable THEN {<<l, "unstable", 0, 0>>} ELSE {})
        \cup {<<l, "missing", x[3], x[4]>> : x \in (DesR(e) \ RecvTab(e)) \cup (DesS(e) \ SendTab(e))}
@@ -104,16 +117,16 @@ OnQuiet(e) ==
        \cup {<<l, "unhealthy", x[3], x[4]>> : x \in {y \in Range(e.recv) : ~y[5]} \cup {y \in Range(e.send) : y[5] # "serve"}}
        \cup {<<l, "orphan", x[3], x[4]>> : x \in {y \in Range(e.cli) : ~y[6] /\ y[5] # "spin"} \cup {y \in Range(e.srv) : ~y[6]}}
        \cup {<<l, "dup", c[3], c[4]>> : c \in dupc})
-  /\ UNCHANGED <<routed, count>>
+  /\ UNCHANGED <<routed, count, last>>
 
 Next == /\ l <= Len(Trace) /\ l' = l + 1
         /\ LET e == Trace[l] IN
-           CASE e.ev = "Config" -> routed' = <<>> /\ count' = <<>>
+           CASE e.ev = "Config" -> routed' = <<>> /\ count' = <<>> /\ last' = <<>>
              [] e.ev = "Step" -> OnStep(e)
              [] e.ev = "Quiet" -> OnQuiet(e)
              [] e.ev = "Teardown" -> /\ (IF e.receivers > 0 \/ e.senders > 0 THEN FlagAll({<<l, "leak", e.receivers, e.senders>>}) ELSE TRUE)
-                                     /\ UNCHANGED <<routed, count>>
-             [] OTHER -> UNCHANGED <<routed, count>>
+                                     /\ UNCHANGED <<routed, count, last>>
+             [] OTHER -> UNCHANGED <<routed, count, last>>
 Spec == Init /\ [][Next]_vars
 Report == PrintT(<<"OBS_VIOLATIONS", TLCGet(1)>>) /\ PrintT(<<"OBS_TRACE_LEN", Len(Trace)>>)
 =============================================================================
